@@ -189,22 +189,22 @@ Lemma close_cases s h :
   Inv s ->
   (is_open s h = true /\ exists k, nlookup h (names s) = Some k /\ lookup k (reg s) = Some h /\
      close_model s h = (closed s k h, Done))
-  \/ (is_open s h = false /\ exists e, close_model s h = (s, Raised e)).
+  \/ (is_open s h = false /\ exists o, close_model s h = (s, o) /\ o <> OutOfFuel).
 Proof.
   intros HI. destruct (is_open s h) eqn:Eo.
   - left. split; [reflexivity|]. apply is_open_name in Eo. destruct Eo as [k [Hn Hl]].
     exists k. repeat split; try assumption. now apply close_model_open.
   - right. split; [reflexivity|]. unfold is_open in Eo. unfold close_model.
-    destruct (nlookup h (names s)) as [k|]; [|eauto].
-    destruct (lookup k (reg s)) as [m|]; [|eauto].
-    rewrite Eo. eauto.
+    destruct (nlookup h (names s)) as [k|]; [|eexists; split; [reflexivity|discriminate]].
+    destruct (lookup k (reg s)) as [m|]; [|eexists; split; [reflexivity|discriminate]].
+    rewrite Eo. eexists; split; [reflexivity|discriminate].
 Qed.
 
 Lemma step_inv x s o : Inv s -> 1 <= x -> Inv (fst (step_x x s o)).
 Proof.
   intros HI Hx. destruct o as [name|h new ro|h|h slot|slot name|name| |h sc];
     try (apply step_good_nonclose; [assumption|assumption|intros h0; discriminate]).
-  simpl. destruct (close_cases s h HI) as [[_ [k [Hn [Hl ->]]]]|[_ [e ->]]]; simpl.
+  simpl. destruct (close_cases s h HI) as [[_ [k [Hn [Hl ->]]]]|[_ [e [-> _]]]]; simpl.
   - now apply inv_closed.
   - assumption.
 Qed.
@@ -213,7 +213,7 @@ Lemma step_no_fuel_out x s o : Inv s -> 1 <= x -> snd (step_x x s o) <> OutOfFue
 Proof.
   intros HI Hx. destruct o as [name|h new ro|h|h slot|slot name|name| |h sc];
     try (apply step_good_nonclose; [assumption|assumption|intros h0; discriminate]).
-  simpl. destruct (close_cases s h HI) as [[_ [k [Hn [Hl ->]]]]|[_ [e ->]]]; simpl; discriminate.
+  simpl. destruct (close_cases s h HI) as [[_ [k [Hn [Hl ->]]]]|[_ [e [-> Hne]]]]; simpl; [discriminate|exact Hne].
 Qed.
 
 Lemma run_inv s ops : Inv s -> Inv (run s ops).
@@ -318,7 +318,7 @@ Proof.
   destruct o as [name|h new ro|h|h slot|slot name|name| |h0 sc];
     try (apply (step_good_nonclose 1 s); [assumption|lia|intros h1; discriminate|assumption]).
   unfold step. simpl.
-  destruct (close_cases s h HI) as [[_ [k [Hn [Hl ->]]]]|[_ [e ->]]]; simpl; [|exact Hr].
+  destruct (close_cases s h HI) as [[_ [k [Hn [Hl ->]]]]|[_ [e [-> _]]]]; simpl; [|exact Hr].
   destruct Hr as [k' Hk']. exists k'. rewrite lookup_closed.
   assert (k' <> k).
   { intros ->. assert (m = h) by congruence. subst. now apply Hne. }
@@ -529,7 +529,7 @@ Proof.
     apply is_open_name in Eo. destruct Eo as [k [Hk Hl]]. assert (k = old) by congruence. subst k.
     pose proof (rename_model_spec 1 s new old ro h HI Hx Hl) as H. rewrite Hst in H.
     inversion H; subst. now apply Same.
-  - destruct (close_cases s h HI) as [[_ [k [Hn [Hl Hc]]]]|[_ [e' Hc]]]; rewrite Hc in Hst.
+  - destruct (close_cases s h HI) as [[_ [k [Hn [Hl Hc]]]]|[_ [e' [Hc _]]]]; rewrite Hc in Hst.
     + discriminate.
     + injection Hst as <- _. now apply Same.
   - unfold op_write in Hst. destruct (nlookup h (names s)).
@@ -580,7 +580,7 @@ Proof.
   assert (Eo : is_open s h = false).
   { destruct (is_open s h) eqn:E; [|reflexivity]. exfalso. apply Hnr, open_registered, is_open_open, E. }
   unfold step. destruct Ho as [[->|[new [ro ->]]]|[slot ->]]; simpl.
-  - destruct (close_cases s h HI) as [[Hc _]|[_ [e ->]]]; [congruence|reflexivity].
+  - destruct (close_cases s h HI) as [[Hc _]|[_ [e [-> _]]]]; [congruence|reflexivity].
   - unfold op_rename. destruct (nlookup h (names s)); [|reflexivity].
     destruct (String.eqb new s0); [reflexivity|]. now rewrite Eo.
   - unfold op_write. destruct (nlookup h (names s)); [|reflexivity]. now rewrite Eo.
@@ -665,7 +665,7 @@ Proof. vm_compute. reflexivity. Qed.
 
 Example ex_stale :
   let s := run (init 0 0) [NewModel (Some "A"); Close 0; NewModel (Some "A")] in
-  ~ registered s 0 /\ step s (Close 0) = (s, Raised EMissing).
+  ~ registered s 0 /\ step s (Close 0) = (s, Done).
 Proof. vm_compute. split; [intros [H|[]]; discriminate|reflexivity]. Qed.
 
 (** close on a state with three registered models, one of them a backup *)
